@@ -224,7 +224,10 @@ OpInsert ==
   /\ ResSame(E.w)
   /\ issued' = [issued EXCEPT ![E.w] = @ \cup {id}]
 
-EffRows == IF E.order = <<>> THEN <<>> ELSE E.rows
+(* a batch built from columns (Batch::new) has as many rows as its columns; with no column it has
+   none.  A batch written with the entities! macro ("form") states its rows itself: n for
+   `entities!((..); n)`, one per tuple for `entities!((..), (..))` -- also when the tuples are empty. *)
+EffRows == IF E.order = <<>> /\ "form" \notin DOMAIN E THEN <<>> ELSE E.rows
 OpExtend ==
   LET ids == E.res.ids
       rows == EffRows IN
